@@ -70,6 +70,18 @@ def run(repo, seed, tier):
                    os.path.join(sib, 'unit', 'test_x.py'), os.path.join(other, 'm.py')]
         explicit_opts = [None, [], [x1, x2, x1], [x2, x1], [proj, x1], [Path(x1)]]
         added_opts = [(), (add1,), (add1, x1, add1), (Path(add1),)]
+        # a module on the interpreter's own sys.path that neither jedi nor its helper process ever imports
+        import importlib.util
+        cold = cold_home = None
+        for cand in ('pytest', 'docopt', 'colorama', 'attr', 'pluggy', 'iniconfig', 'packaging'):
+            spec = importlib.util.find_spec(cand)
+            if spec is not None and spec.origin and cand not in sys.modules:
+                cold = cand
+                cold_home = os.path.dirname(os.path.dirname(spec.origin)) if spec.origin.endswith('__init__.py') \
+                    else os.path.dirname(spec.origin)
+                break
+        if cold is None:
+            raise RuntimeError('no never-imported site-packages module found for the interpreter-path probe')
         env = jedi.get_default_environment()
         env_path = env.get_sys_path()
         combos = list(itertools.product(explicit_opts, added_opts, (True, False), scripts))
@@ -81,7 +93,8 @@ def run(repo, seed, tier):
             desc = repr({'sys_path': explicit, 'added_sys_path': added, 'smart_sys_path': smart,
                          'script': script and os.path.relpath(script, top)})
             p = Project(proj, sys_path=explicit, added_sys_path=added, smart_sys_path=smart)
-            s = jedi.Script('import only_in_extra\nimport only_in_plain\nimport only_elsewhere\n', path=script, project=p)
+            s = jedi.Script('import only_in_extra\nimport only_in_plain\nimport only_elsewhere\nimport parso\n'
+                            'import %s\n' % cold, path=script, project=p)
             got = s._inference_state.get_sys_path()
             want = expected_path(proj, None if explicit is None else [str(e) for e in explicit], env_path,
                                  [str(a) for a in added], smart, script)
@@ -95,9 +108,12 @@ def run(repo, seed, tier):
                                    'observed': 'got %r want %r' % ([os.path.relpath(g, top) if g.startswith(top) else g for g in got][-6:],
                                                                    [os.path.relpath(g, top) if g.startswith(top) else g for g in want][-6:])})
             # this path is what import resolution uses
+            import parso
+            parso_home = os.path.dirname(os.path.dirname(parso.__file__))     # on the interpreter's own sys.path
             for line, mod, home in ((1, 'only_in_extra', add1), (2, 'only_in_plain', os.path.join(proj, 'plain')),
-                                    (3, 'only_elsewhere', other)):
-                found = bool([n for n in s.infer(line, 9) if n.module_path is not None])
+                                    (3, 'only_elsewhere', other), (4, 'parso', parso_home),
+                                    (5, cold, cold_home)):
+                found = bool([n for n in s.infer(line, 8) if n.module_path is not None])
                 should = home in want
                 if found != should:
                     violations.append({'label': 'import resolution does not use the effective search path',
@@ -130,8 +146,15 @@ def run(repo, seed, tier):
     finally:
         shutil.rmtree(top, ignore_errors=True)
     counts = {}
+    kept = []
+    per = {}
     for v in violations:
         counts[v['label']] = counts.get(v['label'], 0) + 1
+        k = (v['label'], v['input'].split(' import ')[-1] if ' import ' in v['input'] else '')
+        per[k] = per.get(k, 0) + 1
+        if per[k] <= 3:
+            kept.append(v)
+    violations = kept
     return {'name': 'C20.project-settings', 'contract': 'C20.sys-path-shape',
             'evaluations': evaluations, 'distinct_nontrivial': evaluations,
             'rule': 'Project(app) x sys_path in {None, [], duplicates, prefix-related entries, project dir itself, Path '
